@@ -293,7 +293,7 @@ def run(ctx):
         with ThreadPoolExecutor(max_workers=ctx.workers) as ex:
             hists = [h for part in ex.map(lambda j: gen_schedules(ctx, *j), jobs) for h in part]
         ctx.rng.shuffle(hists)
-        hists = hists[:90 if quick else 500]
+        hists = hists[:90 if quick else 400]
         cex = [] if quick else asis_counterexamples(ctx)
         scheds, origin = [], {}
 
